@@ -80,8 +80,9 @@ def cigar_str(ops):
 
 
 @st.composite
-def realign_record(draw, g, lm, name, rnd, tags=None, fragmented=None, max_len=5, with_cigar=True, comment=""):
-    steps = draw(gen_gaf.walk(g, lm, max_len=max_len))
+def realign_record(draw, g, lm, name, rnd, tags=None, fragmented=None, max_len=5, with_cigar=True, comment="",
+                   prefix=None):
+    steps = draw(gen_gaf.walk(g, lm, max_len=max_len, prefix=prefix))
     full = models.spell_unstable(g["nodes"], steps)
     total = len(full)
     ps = draw(st.integers(0, total - 1))
